@@ -11,8 +11,9 @@ open MongoModel MongoModel.Spec.Order
 
 /-! ### the comparison of two in-domain keys -/
 
-/-- a key of the domain: rank 1 and a null / bool / number / string / naive datetime -/
-def DKey (k : SortKey) : Prop := k.rank = 1 ∧ valReasons k.val = []
+/-- a key of the domain: a null / bool / number / string / naive datetime / supplied ObjectId
+    (of either rank) -/
+def DKey (k : SortKey) : Prop := valReasons k.val = []
 
 theorem ite_ord_beq_lt (P Q : Prop) [Decidable P] [Decidable Q] :
     ((if P then Ordering.lt else if Q then Ordering.eq else Ordering.gt) == Ordering.lt)
@@ -34,63 +35,119 @@ theorem keyLt_eq_spec (a b : SortKey) (ha : DKey a) (hb : DKey b) :
     MongoModel.keyLt a b = .ok (Spec.Order.keyLt a b) := by
   obtain ⟨ra, va⟩ := a
   obtain ⟨rb, vb⟩ := b
-  obtain ⟨h1, h2⟩ := ha
-  obtain ⟨h3, h4⟩ := hb
-  simp only at h1 h2 h3 h4
-  subst h1 h3
-  simp only [MongoModel.keyLt, Spec.Order.keyLt, ne_eq, not_true_eq_false, if_false]
-  rcases va with _ | _ | _ | _ | _ | ⟨u, _ | o⟩ | _ | _ | _ <;>
-  rcases vb with _ | _ | _ | _ | _ | ⟨u', _ | o'⟩ | _ | _ | _ <;>
-  simp [valReasons] at h2 h4 <;>
-  simp [-String.lt_iff_ltb, bsonCompare, Val.tc, bsonCmp, leafCmp, valLt, typeOrder, natCmp, strCmp,
-      CmpOp.holds, Val.num?, Except.map, dateUtc, Num.lt, ite_ord_beq_lt, compare_beq_lt] <;>
-  first
-    | rfl
-    | (rename_i x y; cases x <;> cases y <;> rfl)
+  have h2 : valReasons va = [] := ha
+  have h4 : valReasons vb = [] := hb
+  by_cases hr : ra = rb
+  · subst hr
+    simp only [MongoModel.keyLt, Spec.Order.keyLt, ne_eq, not_true_eq_false, if_false]
+    rcases va with _ | _ | _ | _ | _ | ⟨u, _ | o⟩ | _ | _ | _ <;>
+    rcases vb with _ | _ | _ | _ | _ | ⟨u', _ | o'⟩ | _ | _ | _ <;>
+    simp [valReasons] at h2 h4 <;>
+    simp [-String.lt_iff_ltb, bsonCompare, Val.tc, bsonCmp, leafCmp, valLt, typeOrder, natCmp, strCmp,
+        CmpOp.holds, Val.num?, Except.map, dateUtc, Num.lt, ite_ord_beq_lt, compare_beq_lt] <;>
+    first
+      | rfl
+      | simp [oidCmp, h2, h4, compare_beq_lt]
+      | (rename_i x y; cases x <;> cases y <;> rfl)
+  · simp [MongoModel.keyLt, Spec.Order.keyLt, hr]
 
 /-! ### the sort key of an in-domain document -/
 
-theorem candKeys_scalar (v : Val) (h : valReasons v = []) : candKeys (some v) = [⟨1, v⟩] := by
-  cases v <;> simp [valReasons] at h <;> rfl
+/-- the model's and the oracle's reading of one reached value are the same function -/
+theorem candSortKeys_eq (c : Option Val) : candSortKeys c = candKeys c := by
+  cases c with
+  | none => rfl
+  | some v =>
+    cases v with
+    | arr xs => cases xs <;> rfl
+    | _ => rfl
 
-theorem sortKeyOf_scalar (v : Val) (h : valReasons v = []) : sortKeyOf (some v) = ⟨1, v⟩ := by
-  cases v <;> simp [valReasons] at h <;> rfl
+theorem dkey_of_candReasons (c : Option Val) (h : candReasons c = []) :
+    ∀ k ∈ candKeys c, DKey k := by
+  intro k hk
+  cases c with
+  | none =>
+    simp only [candKeys, List.mem_singleton] at hk
+    subst hk; rfl
+  | some v =>
+    cases v with
+    | arr xs =>
+      cases xs with
+      | nil =>
+        simp only [candKeys, List.mem_singleton] at hk
+        subst hk; rfl
+      | cons x r =>
+        simp only [candKeys, List.mem_map] at hk
+        obtain ⟨y, hy, rfl⟩ := hk
+        exact List.flatMap_eq_nil_iff.mp h y hy
+    | _ =>
+      simp only [candKeys, List.mem_singleton] at hk
+      subst hk; exact h
 
-/-- inside the domain the model's sort key and the oracle's (for either direction) are the same
+/-- Python's `min` / `max` over in-domain keys is the oracle's smallest / largest key -/
+theorem pickSortKey_eq (rev : Bool) : ∀ (r : List SortKey) (best : SortKey), DKey best →
+    (∀ k ∈ r, DKey k) →
+    pickSortKey rev best r = .ok (pickKey rev best r) ∧ DKey (pickKey rev best r) := by
+  intro r
+  induction r with
+  | nil => intro best hb _; exact ⟨rfl, hb⟩
+  | cons k r ih =>
+    intro best hb hr
+    have hk : DKey k := hr k List.mem_cons_self
+    have hr' : ∀ k' ∈ r, DKey k' := fun k' hk' => hr k' (List.mem_cons_of_mem _ hk')
+    cases rev with
+    | false =>
+      simp only [pickSortKey, pickKey, Bool.false_eq_true, if_false, keyLt_eq_spec k best hk hb]
+      refine ih _ ?_ hr'
+      cases Spec.Order.keyLt k best <;> simp [hk, hb]
+    | true =>
+      simp only [pickSortKey, pickKey, if_true, keyLt_eq_spec best k hb hk]
+      refine ih _ ?_ hr'
+      cases Spec.Order.keyLt best k <;> simp [hk, hb]
+
+/-- inside the domain the model's sort key is the oracle's, for either direction, and it is an
     in-domain key -/
-theorem key_of_reasons_nil (key : String) (d : Val) (h : keyReasons key d = []) :
-    ∃ k, resolveSortKey key d = .ok k ∧ DKey k ∧ ∀ desc, docKey key desc d = k := by
+theorem key_of_reasons_nil (key : String) (d : Val) (h : keyReasons key d = []) (desc : Bool) :
+    resolveSortKey key desc d = .ok (docKey key desc d) ∧ DKey (docKey key desc d) := by
   unfold keyReasons at h
-  unfold resolveSortKey resolveKey docKey
+  unfold resolveSortKey docKey
   cases hc : candsKey key d with
   | error e => rw [hc] at h; simp at h
   | ok cs =>
     rw [hc] at h
-    match cs, h with
-    | [], _ => exact ⟨⟨1, .null⟩, rfl, ⟨rfl, rfl⟩, fun _ => rfl⟩
-    | [none], _ => exact ⟨⟨1, .null⟩, rfl, ⟨rfl, rfl⟩, fun _ => rfl⟩
-    | [some v], h =>
-      have hv : valReasons v = [] := h
-      refine ⟨⟨1, v⟩, ?_, ⟨rfl, hv⟩, ?_⟩
-      · simp [sortKeyOf_scalar v hv]
-      · intro desc
-        simp [candKeys_scalar v hv, pickKey]
-    | _ :: _ :: _, h => simp at h
+    simp only at h ⊢
+    have he : cs.flatMap candSortKeys = cs.flatMap candKeys := by
+      exact congrArg (fun f => cs.flatMap f) (funext candSortKeys_eq)
+    rw [he]
+    cases hk : cs.flatMap candKeys with
+    | nil => exact ⟨rfl, rfl⟩
+    | cons k r =>
+      have hall : ∀ k' ∈ k :: r, DKey k' := by
+        intro k' hk'
+        rw [← hk, List.mem_flatMap] at hk'
+        obtain ⟨c, hcm, hkc⟩ := hk'
+        exact dkey_of_candReasons c (List.flatMap_eq_nil_iff.mp h c hcm) k' hkc
+      exact pickSortKey_eq desc r k (hall k List.mem_cons_self)
+        (fun k' hk' => hall k' (List.mem_cons_of_mem _ hk'))
 
 theorem keyShallow_of_reasons (v : Val) (h : valReasons v = []) : keyShallow v = true := by
   cases v <;> simp [valReasons] at h <;> rfl
 
-/-- ascending order of two documents under one key, as the oracle sees it -/
-def ascLt (key : String) (a b : Val) : Bool :=
-  Spec.Order.keyLt (docKey key false a) (docKey key false b)
+/-- order of two documents under one key, as the oracle sees it: by their smallest reached
+    values (`desc = false`) or by their largest (`desc = true`) -/
+def dirLt (key : String) (desc : Bool) (a b : Val) : Bool :=
+  Spec.Order.keyLt (docKey key desc a) (docKey key desc b)
 
-theorem docLt_eq_spec (key : String) (a b : Val)
+/-- ascending order of two documents under one key -/
+abbrev ascLt (key : String) : Val → Val → Bool := dirLt key false
+
+theorem docLt_eq_spec (key : String) (desc : Bool) (a b : Val)
     (ha : keyReasons key a = []) (hb : keyReasons key b = []) :
-    docKeyLt key a b = .ok (ascLt key a b) := by
-  obtain ⟨ka, hka, dka, eka⟩ := key_of_reasons_nil key a ha
-  obtain ⟨kb, hkb, dkb, ekb⟩ := key_of_reasons_nil key b hb
-  simp only [docKeyLt, hka, hkb, ascLt, eka, ekb]
-  exact keyLt_eq_spec ka kb dka dkb
+    docKeyLt key desc a b = .ok (dirLt key desc a b) := by
+  obtain ⟨hka, dka⟩ := key_of_reasons_nil key a ha desc
+  obtain ⟨hkb, dkb⟩ := key_of_reasons_nil key b hb desc
+  simp only [docKeyLt, hka, hkb, dirLt]
+  exact keyLt_eq_spec _ _ dka dkb
 
 theorem mapR_ok {α β} (f : α → R β) (g : α → β) (l : List α) (h : ∀ x ∈ l, f x = .ok (g x)) :
     mapR f l = .ok (l.map g) := by
@@ -110,50 +167,62 @@ theorem pairsOk_of {α} (lt : α → α → R Bool) (l : List α)
       h y (List.mem_cons_of_mem _ hy) x (List.mem_cons_self)⟩, ?_⟩
     exact ih (fun a ha b hb => h a (List.mem_cons_of_mem _ ha) b (List.mem_cons_of_mem _ hb))
 
-theorem strictWeak_ascLt (key : String) : StrictWeak (ascLt key) :=
-  strictWeak_of_embedding _ (fun d => emb (docKey key false d)) (fun _ _ => keyLt_iff _ _)
+theorem strictWeak_dirLt (key : String) (desc : Bool) : StrictWeak (dirLt key desc) :=
+  strictWeak_of_embedding _ (fun d => emb (docKey key desc d)) (fun _ _ => keyLt_iff _ _)
 
-/-- one `sorted(…, key=resolve_sort_key, reverse=…)` inside the domain is the stable sort by the
-    oracle's order for that key and direction -/
-theorem sortedByKey_eq (kd : String × Int) (ds : List Val)
-    (h : ∀ d ∈ ds, keyReasons kd.1 d = []) :
-    sortedByKey kd.1 (decide (kd.2 < 0)) ds = .ok (isort (docLt1 kd) ds) := by
-  have hkeys : mapR (resolveSortKey kd.1) ds = .ok (ds.map (docKey kd.1 false)) := by
+theorem strictWeak_ascLt (key : String) : StrictWeak (ascLt key) := strictWeak_dirLt key false
+
+/-- one `sorted(…, key=resolve_sort_key(…, reverse), reverse=…)` inside the domain, for a literal
+    direction: the stable sort by the smallest values, or by the flipped order of the largest -/
+theorem sortedByKey_dir (key : String) (rev : Bool) (ds : List Val)
+    (h : ∀ d ∈ ds, keyReasons key d = []) :
+    sortedByKey key rev ds =
+      .ok (if rev then isort (fun a b => dirLt key true b a) ds else isort (dirLt key false) ds) := by
+  have hkeys : mapR (resolveSortKey key rev) ds = .ok (ds.map (docKey key rev)) := by
     apply mapR_ok
     intro d hd
-    obtain ⟨k, hk, _, ek⟩ := key_of_reasons_nil kd.1 d (h d hd)
-    rw [hk, ek]
-  have hshallow : (ds.map (docKey kd.1 false)).all (fun k => keyShallow k.val) = true := by
+    exact (key_of_reasons_nil key d (h d hd) rev).1
+  have hshallow : (ds.map (docKey key rev)).all (fun k => keyShallow k.val) = true := by
     simp only [List.all_eq_true, List.mem_map]
     rintro k ⟨d, hd, rfl⟩
-    obtain ⟨k, _, dk, ek⟩ := key_of_reasons_nil kd.1 d (h d hd)
-    rw [ek]; exact keyShallow_of_reasons _ dk.2
-  have hok : pairsOk (docKeyLt kd.1) ds = true := by
+    exact keyShallow_of_reasons _ (key_of_reasons_nil key d (h d hd) rev).2
+  have hok : pairsOk (docKeyLt key rev) ds = true := by
     apply pairsOk_of
     intro a ha b hb
-    rw [docLt_eq_spec kd.1 a b (h a ha) (h b hb)]; rfl
-  have hlt : ∀ a ∈ ds, ∀ b ∈ ds, okTrue (docKeyLt kd.1 a b) = ascLt kd.1 a b := by
+    rw [docLt_eq_spec key rev a b (h a ha) (h b hb)]; rfl
+  have hlt : ∀ a ∈ ds, ∀ b ∈ ds, okTrue (docKeyLt key rev a b) = dirLt key rev a b := by
     intro a ha b hb
-    rw [docLt_eq_spec kd.1 a b (h a ha) (h b hb)]
-    cases ascLt kd.1 a b <;> rfl
+    rw [docLt_eq_spec key rev a b (h a ha) (h b hb)]
+    cases dirLt key rev a b <;> rfl
   simp only [sortedByKey, hkeys, hshallow, Bool.not_true, Bool.false_eq_true, if_false, pySorted,
     hok, if_true]
   congr 1
+  cases rev with
+  | true =>
+    simp only [if_true]
+    rw [isort_congr (lt' := dirLt key true) ds.reverse
+      (fun a ha b hb => hlt a (List.mem_reverse.mp ha) b (List.mem_reverse.mp hb)),
+      reverse_isort_reverse (strictWeak_dirLt key true)]
+  | false =>
+    simp only [Bool.false_eq_true, if_false]
+    exact isort_congr ds hlt
+
+/-- …for the direction given as an int: the stable sort by the oracle's order for that key and
+    direction -/
+theorem sortedByKey_eq (kd : String × Int) (ds : List Val)
+    (h : ∀ d ∈ ds, keyReasons kd.1 d = []) :
+    sortedByKey kd.1 (decide (kd.2 < 0)) ds = .ok (isort (docLt1 kd) ds) := by
+  rw [sortedByKey_dir kd.1 _ ds h]
+  congr 1
   by_cases hdir : kd.2 < 0
   · simp only [hdir, decide_true, if_true]
-    rw [isort_congr (lt' := ascLt kd.1) ds.reverse
-      (fun a ha b hb => hlt a (List.mem_reverse.mp ha) b (List.mem_reverse.mp hb)),
-      reverse_isort_reverse (strictWeak_ascLt kd.1)]
     apply isort_congr
-    intro a ha b hb
-    obtain ⟨_, _, _, ea⟩ := key_of_reasons_nil kd.1 a (h a ha)
-    obtain ⟨_, _, _, eb⟩ := key_of_reasons_nil kd.1 b (h b hb)
-    simp only [docLt1, hdir, if_true, ascLt, ea, eb]
+    intro a _ b _
+    simp only [docLt1, hdir, if_true, dirLt]
   · simp only [hdir, decide_false, Bool.false_eq_true, if_false]
     apply isort_congr
-    intro a ha b hb
-    rw [hlt a ha b hb]
-    simp only [docLt1, hdir, if_false, ascLt]
+    intro a _ b _
+    simp only [docLt1, hdir, if_false, dirLt]
 
 /-! ### successive sorts = one lexicographic sort -/
 
@@ -251,22 +320,19 @@ def implLim : Option Int → Option Nat
   | some l => if l = 0 then none else some l.natAbs
   | none => none
 
-/-- the oracle's limit with the empty slice collapsed to "no limit" — what the code does -/
-def collapse : Option Nat → Option Nat
-  | some n => if n = 0 then none else some n
-  | none => none
+/-- …taking the empty-slice flag into account: an empty slice selects nothing -/
+def effLim (c : Cursor) : Option Nat := if c.empty then some 0 else implLim c.limit
 
-/-- the model's cursor `c` and the oracle's settings `s` describe the same request, up to the
-    empty-slice defect (the oracle's `some 0` is the model's "no limit") -/
+/-- the model's cursor `c` and the oracle's settings `s` describe the same request -/
 def Rel (c : Cursor) (s : Settings) : Prop :=
-  c.sort = s.sort ∧ c.skip = s.skip ∧ implLim c.limit = collapse s.limit
+  c.sort = s.sort ∧ c.skip = s.skip ∧ effLim c = s.limit
 
 theorem rel_new (sort : Option SortSpec) (skip limit : Int) :
     Rel (Cursor.new sort skip limit) (Settings.new sort skip limit) := by
   refine ⟨rfl, rfl, ?_⟩
   by_cases h : limit = 0
-  · simp [Cursor.new, Settings.new, limitArg, h, implLim, collapse]
-  · simp [Cursor.new, Settings.new, limitArg, h, implLim, collapse, Int.natAbs_eq_zero]
+  · simp [Cursor.new, Settings.new, limitArg, h, implLim, effLim]
+  · simp [Cursor.new, Settings.new, limitArg, h, implLim, effLim]
 
 /-- one cursor-method call: the model and the oracle both reject it, or both accept it and stay
     related -/
@@ -279,8 +345,8 @@ theorem step_rel (c : Cursor) (s : Settings) (op : CurOp) (h : Rel c s) :
   | limit n =>
     refine Or.inr ⟨_, _, rfl, rfl, h1, h2, ?_⟩
     by_cases hn : n = 0
-    · simp [limitArg, hn, implLim, collapse]
-    · simp [limitArg, hn, implLim, collapse, Int.natAbs_eq_zero]
+    · simp [limitArg, hn, implLim, effLim]
+    · simp [limitArg, hn, implLim, effLim]
   | sortKey k d =>
     refine Or.inr ⟨_, _, rfl, rfl, ?_, h2, h3⟩
     cases d with
@@ -297,7 +363,7 @@ theorem step_rel (c : Cursor) (s : Settings) (op : CurOp) (h : Rel c s) :
       intro a _
       cases stop with
       | none =>
-        exact Or.inr ⟨_, _, rfl, rfl, h1, rfl, by simp [implLim, collapse]⟩
+        exact Or.inr ⟨_, _, rfl, rfl, h1, rfl, by simp [implLim, effLim]⟩
       | some b =>
         by_cases hb : b < a
         · left
@@ -305,15 +371,14 @@ theorem step_rel (c : Cursor) (s : Settings) (op : CurOp) (h : Rel c s) :
           exact ⟨.indexErr, by simp [sliceStop, this], by simp [Settings.slice, hb]⟩
         · right
           have hnn : ¬ (b - a < 0) := by omega
-          refine ⟨{ c with skip := a, limit := some (b - a) },
+          refine ⟨{ c with skip := a, limit := some (b - a), empty := decide (b - a = 0) },
             { s with skip := a, limit := some (b - a).toNat },
             by simp only [sliceStop, hnn, if_false], by simp only [Settings.slice, hb, if_false],
             h1, rfl, ?_⟩
           by_cases hz : b - a = 0
-          · simp [implLim, collapse, hz]
-          · have : (b - a).toNat ≠ 0 := by omega
-            have e : (b - a).natAbs = (b - a).toNat := by omega
-            simp [implLim, collapse, hz, this, e]
+          · simp [effLim, hz]
+          · have e : (b - a).natAbs = (b - a).toNat := by omega
+            simp [implLim, effLim, hz, e]
     cases start with
     | none => exact key 0 (le_refl 0)
     | some a =>
@@ -324,6 +389,7 @@ theorem step_rel (c : Cursor) (s : Settings) (op : CurOp) (h : Rel c s) :
   | clone =>
     refine Or.inr ⟨_, _, rfl, rfl, h1, h2, ?_⟩
     rw [← h3]
+    simp only [effLim]
     cases hl : c.limit with
     | none => rfl
     | some l => by_cases hz : l = 0 <;> simp [implLim, hz]
@@ -352,23 +418,20 @@ theorem pyTakeTo_nonneg {α} (e : Int) (xs : List α) (h : 0 ≤ e) :
   simp [pyTakeTo, h]
 
 /-- `_compute_results` slicing is `drop` then `take` of the effective limit -/
-theorem window_eq_implLim {α} (c : Cursor) (xs : List α) (h : 0 ≤ c.skip) :
-    c.window xs = window c.skip.toNat (implLim c.limit) xs := by
-  unfold Cursor.window window implLim
-  cases hl : c.limit with
-  | none => simp [pyDropFrom_nonneg _ _ h]
-  | some l => by_cases hz : l = 0 <;> simp [hz, pyDropFrom_nonneg _ _ h]
+theorem window_eq_effLim {α} (c : Cursor) (xs : List α) (h : 0 ≤ c.skip) :
+    c.window xs = window c.skip.toNat (effLim c) xs := by
+  unfold Cursor.window window effLim implLim
+  cases he : c.empty with
+  | true => simp
+  | false =>
+    cases hl : c.limit with
+    | none => simp [pyDropFrom_nonneg _ _ h]
+    | some l => by_cases hz : l = 0 <;> simp [hz, pyDropFrom_nonneg _ _ h]
 
 theorem window_eq_spec {α} (c : Cursor) (s : Settings) (xs : List α) (h : Rel c s)
-    (hs : 0 ≤ s.skip) (hl : s.limit ≠ some 0) :
-    c.window xs = window s.skip.toNat s.limit xs := by
+    (hs : 0 ≤ s.skip) : c.window xs = window s.skip.toNat s.limit xs := by
   obtain ⟨_, h2, h3⟩ := h
-  rw [window_eq_implLim c xs (h2 ▸ hs), h2, h3]
-  cases hlim : s.limit with
-  | none => rfl
-  | some n =>
-    have : n ≠ 0 := by intro e; rw [hlim, e] at hl; exact hl rfl
-    simp [collapse, this]
+  rw [window_eq_effLim c xs (h2 ▸ hs), h2, h3]
 
 /-! ### count_documents -/
 
@@ -483,40 +546,34 @@ theorem runPipeline_eq_spec (stages : List Stage) : ∀ (docs0 docs : List Val),
 
 /-! ### a missing field sorts as null -/
 
-theorem resolveSortKey_missing (key : String) (d : Val) (h : resolveKey key d = .ok none) :
-    resolveSortKey key d = .ok ⟨1, .null⟩ := by
-  simp [resolveSortKey, h, sortKeyOf]
+/-- the path reaches nothing in the document -/
+def Missing (key : String) (d : Val) : Prop :=
+  candsKey key d = .ok [] ∨ candsKey key d = .ok [none]
 
-theorem resolveSortKey_null (key : String) (d : Val) (h : resolveKey key d = .ok (some .null)) :
-    resolveSortKey key d = .ok ⟨1, .null⟩ := by
-  simp [resolveSortKey, h, sortKeyOf]
+theorem resolveSortKey_missing (key : String) (rev : Bool) (d : Val) (h : Missing key d) :
+    resolveSortKey key rev d = .ok ⟨1, .null⟩ := by
+  rcases h with h | h <;> simp [resolveSortKey, h, candSortKeys, pickSortKey]
 
-theorem missing_ties_null (key : String) (a b : Val) (ha : resolveKey key a = .ok none)
-    (hb : resolveKey key b = .ok (some .null)) :
-    docKeyLt key a b = .ok false ∧ docKeyLt key b a = .ok false := by
-  simp [docKeyLt, resolveSortKey_missing key a ha, resolveSortKey_null key b hb,
+theorem resolveSortKey_null (key : String) (rev : Bool) (d : Val)
+    (h : candsKey key d = .ok [some .null]) :
+    resolveSortKey key rev d = .ok ⟨1, .null⟩ := by
+  simp [resolveSortKey, h, candSortKeys, pickSortKey]
+
+theorem missing_ties_null (key : String) (rev : Bool) (a b : Val) (ha : Missing key a)
+    (hb : candsKey key b = .ok [some .null]) :
+    docKeyLt key rev a b = .ok false ∧ docKeyLt key rev b a = .ok false := by
+  simp [docKeyLt, resolveSortKey_missing key rev a ha, resolveSortKey_null key rev b hb,
     MongoModel.keyLt, bsonCompare, bsonCmp, leafCmp, Val.tc, Except.map, CmpOp.holds]
 
 /-! ### one key, ascending and descending -/
 
 theorem sortedByKey_asc (key : String) (ds : List Val) (h : ∀ d ∈ ds, keyReasons key d = []) :
     sortedByKey key false ds = .ok (isort (ascLt key) ds) := by
-  have := sortedByKey_eq (key, 1) ds h
-  simp only [show ¬ ((1 : Int) < 0) by omega, decide_false] at this
-  rw [this]
-  congr 1
+  rw [sortedByKey_dir key false ds h]; rfl
 
 theorem sortedByKey_desc (key : String) (ds : List Val) (h : ∀ d ∈ ds, keyReasons key d = []) :
-    sortedByKey key true ds = .ok (isort (fun a b => ascLt key b a) ds) := by
-  have := sortedByKey_eq (key, -1) ds h
-  simp only [show ((-1 : Int) < 0) by omega, decide_true] at this
-  rw [this]
-  congr 1
-  apply isort_congr
-  intro a ha b hb
-  obtain ⟨_, _, _, ea⟩ := key_of_reasons_nil key a (h a ha)
-  obtain ⟨_, _, _, eb⟩ := key_of_reasons_nil key b (h b hb)
-  simp [docLt1, ascLt, ea, eb]
+    sortedByKey key true ds = .ok (isort (fun a b => dirLt key true b a) ds) := by
+  rw [sortedByKey_dir key true ds h]; rfl
 
 /-! ### the last value given to a setting wins -/
 
@@ -545,16 +602,16 @@ theorem run_append (ops1 ops2 : List CurOp) : ∀ c : Cursor,
 
 theorem step_frame (c c' : Cursor) (op : CurOp) (h : c.step op = .ok c') :
     (setsSkip op = false → c'.skip = c.skip) ∧
-    (setsLimit op = false → implLim c'.limit = implLim c.limit) ∧
+    (setsLimit op = false → effLim c' = effLim c) ∧
     (setsSort op = false → c'.sort = c.sort) := by
   cases op with
-  | skip n => cases h; simp [setsSkip, setsLimit, setsSort]
+  | skip n => cases h; simp [setsSkip, setsLimit, setsSort, effLim]
   | limit n => cases h; simp [setsSkip, setsLimit, setsSort]
-  | sortKey k d => cases h; simp [setsSkip, setsLimit, setsSort]
+  | sortKey k d => cases h; simp [setsSkip, setsLimit, setsSort, effLim]
   | sortList spec =>
     cases spec with
     | nil => cases h
-    | cons kd r => cases h; simp [setsSkip, setsLimit, setsSort]
+    | cons kd r => cases h; simp [setsSkip, setsLimit, setsSort, effLim]
   | slice a b =>
     refine ⟨fun h' => by simp [setsSkip] at h', fun h' => by simp [setsLimit] at h', fun _ => ?_⟩
     have hs : ∀ (a : Int) (c' : Cursor), sliceStop c a b = .ok c' → c'.sort = c.sort := by
@@ -576,6 +633,7 @@ theorem step_frame (c c' : Cursor) (op : CurOp) (h : c.step op = .ok c') :
   | clone =>
     cases h
     refine ⟨fun _ => rfl, fun _ => ?_, fun _ => rfl⟩
+    simp only [effLim]
     cases hl : c.limit with
     | none => rfl
     | some l => by_cases hz : l = 0 <;> simp [implLim, hz]
@@ -583,7 +641,7 @@ theorem step_frame (c c' : Cursor) (op : CurOp) (h : c.step op = .ok c') :
 
 theorem run_frame (ops : List CurOp) : ∀ (c c' : Cursor), c.run ops = .ok c' →
     ((∀ op ∈ ops, setsSkip op = false) → c'.skip = c.skip) ∧
-    ((∀ op ∈ ops, setsLimit op = false) → implLim c'.limit = implLim c.limit) ∧
+    ((∀ op ∈ ops, setsLimit op = false) → effLim c' = effLim c) ∧
     ((∀ op ∈ ops, setsSort op = false) → c'.sort = c.sort) := by
   induction ops with
   | nil => intro c c' h; cases h; exact ⟨fun _ => rfl, fun _ => rfl, fun _ => rfl⟩
@@ -608,7 +666,7 @@ theorem last_call_wins (c0 c' : Cursor) (ops1 ops2 : List CurOp) (op : CurOp)
     (h : c0.run (ops1 ++ op :: ops2) = .ok c') :
     ∃ c1 c2, c0.run ops1 = .ok c1 ∧ c1.step op = .ok c2 ∧
       ((∀ o ∈ ops2, setsSkip o = false) → c'.skip = c2.skip) ∧
-      ((∀ o ∈ ops2, setsLimit o = false) → implLim c'.limit = implLim c2.limit) ∧
+      ((∀ o ∈ ops2, setsLimit o = false) → effLim c' = effLim c2) ∧
       ((∀ o ∈ ops2, setsSort o = false) → c'.sort = c2.sort) := by
   rw [run_append] at h
   cases h1 : c0.run ops1 with
